@@ -118,10 +118,19 @@ class Facts:
                                           {'server disconnect',
                                            'transport error'}))
                         break
-            ws = self.main_ws(sid)
+            # only sockets that carry the session *as the server sees it*:
+            # a direct WebSocket open, or an upgrade socket on which the
+            # server received 2probe and 5 (a socket whose handshake the
+            # server never completed is C06's business, not an end cause)
+            ws = c.open_ws if (c.open_ws is not None and c.sid == sid) \
+                else None
             sws = self.server_upgraded_conn(sid)
             for conn in {id(x): x for x in (ws, sws) if x is not None
                          }.values():
+                seq5 = None
+                if conn is sws and conn is not ws:
+                    seq5 = next((sq for (sq, _t, d) in conn.recv_s
+                                 if d == '5'), None)
                 for (seq, t, item) in conn.arrivals:
                     if item[0] == 'close':
                         out.append(_cause('ws_close', seq, t, True,
@@ -356,6 +365,9 @@ def _check_reason(f, sid, s, d, causes):
         sig = '%s|disconnect-without-cause|%s' % (impl, reason)
         if reason == 'transport close' and _writer_timeout_tie(f, sid, d):
             sig = '%s|ws-timeout-tie-pong-at-deadline' % impl
+        elif reason == 'transport close' and _reader_armed_at_upgrade(
+                f, sid, d):
+            sig = '%s|ws-reader-timeout-armed-at-upgrade' % impl
         out.append(V('disconnect-cause', sig,
                      'session %s disconnected (%r at t=%.4f) but no end '
                      'cause had occurred' % (sid, reason, d['t'])))
@@ -404,6 +416,20 @@ def _writer_timeout_tie(f, sid, d):
                         abs(d['t'] - (ta + f.I)) <= EPS:
                     return True
     return False
+
+
+def _reader_armed_at_upgrade(f, sid, d):
+    """asyncio: the WebSocket read wait (I + T) is armed when the upgrade
+    completes; the PONG for the previous PING may have travelled by POST, so
+    the first frame on the socket can legitimately be due later than that."""
+    conn = f.server_upgraded_conn(sid)
+    if conn is None:
+        return False
+    t5 = next((t for (_s, t, dd) in conn.recv_s if dd == '5'), None)
+    if t5 is None:
+        return False
+    later = [t for (_s, t, dd) in conn.recv_s if t > t5 + EPS]
+    return not later and abs(d['t'] - (t5 + f.I + f.T)) <= EPS
 
 
 def _check_after_disconnect(f, sid, s, d):
@@ -1994,3 +2020,159 @@ def check_open(h, f=None):
 
 
 GREYBODY = object()
+
+
+# ===========================================================================
+# C13  origin policy
+# ===========================================================================
+
+GREY_ORIGIN = 'grey'
+
+
+def ref_origin_allowed(cfg, req, impl=None):
+    """Reference policy.  Returns True / False, None when origin checking
+    is off altogether (empty allow-list), or GREY_ORIGIN where the statement
+    does not decide (asyncio drivers cannot see the connection's own scheme
+    once X-Forwarded-Proto is present: the un-forwarded variant is grey)."""
+    hd = {}
+    for k, v in req.headers:
+        hd.setdefault(k.lower(), v)
+    origin = hd.get('origin')
+    if cfg == []:
+        return None
+    if not origin:
+        return True
+    if cfg is None:
+        host = hd.get('host', 'sim.local')
+        allowed = {'%s://%s' % (req.scheme, host)}
+        if 'x-forwarded-proto' in hd or 'x-forwarded-host' in hd:
+            sch = hd.get('x-forwarded-proto', req.scheme).split(
+                ',')[0].strip()
+            hst = hd.get('x-forwarded-host', host).split(',')[0].strip()
+            allowed.add('%s://%s' % (sch, hst))
+            if impl == 'asyncio' and 'x-forwarded-proto' in hd:
+                if origin.endswith('://' + host):
+                    return GREY_ORIGIN
+        return origin in allowed
+    if cfg == '*':
+        return True
+    if isinstance(cfg, str):
+        return origin == cfg
+    if isinstance(cfg, dict):
+        return origin in cfg.get('callable', [])
+    return origin in cfg
+
+
+def check_origin(h, f=None):
+    f = f or Facts(h)
+    out = []
+    impl = f.impl
+    cfg = h.plan.get('config', {}).get('cors_allowed_origins')
+    cred = h.plan.get('config', {}).get('cors_credentials', True)
+    connect_by_rid = {}
+    for e in h.app.events:
+        if e['ev'] == 'connect' and e.get('rid') is not None:
+            connect_by_rid.setdefault(e['rid'], []).append(e)
+    for req in h.world.requests:
+        if req.seq_arrive is None or not req.path.startswith('/engine.io/'):
+            continue
+        hd = {}
+        for k, v in req.headers:
+            hd.setdefault(k.lower(), v)
+        origin = hd.get('origin')
+        ok = ref_origin_allowed(cfg, req, impl)
+        if ok == GREY_ORIGIN:
+            continue
+        kind = req.tag or req.method
+        if req.kind == 'ws':
+            if ok is False and req.ws.accepted:
+                out.append(V('origin-gate', '%s|ws-admitted-bad-origin|%s' %
+                             (impl, _cfg_shape(cfg)),
+                             'WebSocket request %r with Origin %r (policy '
+                             '%r, scheme %s, host %r) was accepted' % (
+                                 req.query, origin, cfg, req.scheme,
+                                 hd.get('host'))))
+            if ok is False and req.rid in connect_by_rid:
+                out.append(V('origin-gate', '%s|connect-ran-bad-origin|ws' %
+                             impl, 'connect handler ran for a WebSocket '
+                             'request with disallowed Origin %r' % origin))
+            continue
+        if req.status is None:
+            continue
+        if ok is False:
+            if req.status != 400:
+                out.append(V('origin-gate', '%s|admitted-bad-origin|%s|%s' %
+                             (impl, _cfg_shape(cfg), req.method),
+                             '%s %r with Origin %r (policy %r, scheme %s, '
+                             'host %r, forwarded %r/%r) was answered %s, '
+                             'not 400' % (
+                                 req.method, req.query, origin, cfg,
+                                 req.scheme, hd.get('host'),
+                                 hd.get('x-forwarded-proto'),
+                                 hd.get('x-forwarded-host'), req.status)))
+            if req.rid in connect_by_rid:
+                out.append(V('origin-gate', '%s|connect-ran-bad-origin|http'
+                             % impl, 'connect handler ran for a request '
+                             'with disallowed Origin %r' % origin))
+            if req.snap_done is not None and not _others_between(h, req):
+                a, b = req.snap_arrive, req.snap_done
+                if set(a) != set(b) or any(
+                        a[k] and b[k] and (a[k]['closed'], a[k]['upgraded'])
+                        != (b[k]['closed'], b[k]['upgraded']) for k in a):
+                    out.append(V('origin-gate', '%s|bad-origin-had-effect' %
+                                 impl, 'request with disallowed Origin %r '
+                                 'changed the session table: %r -> %r' % (
+                                     origin, sorted(a), sorted(b))))
+        elif ok is True and origin:
+            # an allowed origin must not be turned away for its origin
+            if req.status == 400 and b'origin' in (req.resp_body or
+                                                   b'').lower():
+                out.append(V('origin-allow',
+                             '%s|refused-allowed-origin|%s|scheme=%s' % (
+                                 impl, _cfg_shape(cfg), req.scheme),
+                             '%s %r with Origin %r (policy %r, scheme %s, '
+                             'host %r, forwarded %r/%r) was refused: %r' % (
+                                 req.method, req.query, origin, cfg,
+                                 req.scheme, hd.get('host'),
+                                 hd.get('x-forwarded-proto'),
+                                 hd.get('x-forwarded-host'),
+                                 req.resp_body[:60])))
+        rh = {}
+        for k, v in req.resp_headers or []:
+            rh.setdefault(k.lower(), []).append(v)
+        acao = rh.get('access-control-allow-origin')
+        if acao is not None:
+            if ok is None:
+                out.append(V('cors-headers', '%s|acao-with-cors-disabled' %
+                             impl, 'cors_allowed_origins=[] but '
+                             'Access-Control-Allow-Origin %r was sent' %
+                             acao))
+            elif acao != [origin] or not ok:
+                out.append(V('cors-headers', '%s|acao-over-grants|%s' % (
+                    impl, _cfg_shape(cfg)),
+                    'Access-Control-Allow-Origin %r for request Origin %r '
+                    '(allowed by policy %r: %s)' % (acao, origin, cfg, ok)))
+        if ok is None and any(k.startswith('access-control-') for k in rh):
+            out.append(V('cors-headers', '%s|cors-header-with-cors-disabled'
+                         % impl, 'cors_allowed_origins=[] but CORS headers '
+                         '%r were sent' % sorted(
+                             k for k in rh if k.startswith(
+                                 'access-control-'))))
+        if 'access-control-allow-credentials' in rh and not cred:
+            out.append(V('cors-headers', '%s|credentials-not-enabled' % impl,
+                         'Allow-Credentials sent with cors_credentials off'))
+    return out
+
+
+def _cfg_shape(cfg):
+    if cfg is None:
+        return 'default'
+    if cfg == '*':
+        return 'star'
+    if cfg == []:
+        return 'disabled'
+    if isinstance(cfg, str):
+        return 'string'
+    if isinstance(cfg, dict):
+        return 'callable'
+    return 'list'
